@@ -23,7 +23,7 @@ IncA == [k |-> "inc", n |-> "a"]
 DefA == [k |-> "def", n |-> "a", d |-> 10]
 PAssign == [k |-> "passign", id |-> 0]
 YF(g, arg) == [k |-> "yfrom", g |-> g, arg |-> arg]
-YFs == {YF(g, arg) : g \in 2..4, arg \in {[k |-> "lit", v |-> 1], VarA}}
+YFs == {YF(2, VarA), YF(3, [k |-> "lit", v |-> 1]), YF(4, VarA), YF(4, [k |-> "lit", v |-> 1])}
 AllJumps == {"return", "break", "continue"}
 
 ACtl == [simple |-> {Eff, IncA, Y(Lit0), Y(VarA)},
@@ -34,7 +34,7 @@ AScope == [simple |-> {Eff, DefA, IncA, [k |-> "callf"], Y(VarA)},
            ifinits |-> {None, DefA}, kinds |-> {"if", "ifelse", "switch", "block", "for"}, jumps |-> {"continue"}, ranges |-> {}]
 AYf == [simple |-> {Eff, IncA, Y(VarA)} \cup YFs,
         inits |-> {None}, posts |-> {None} \cup YFs, conds |-> {T0},
-        ifinits |-> {None}, kinds |-> {"if", "for"}, jumps |-> {"break", "continue"}, ranges |-> {}]
+        ifinits |-> {None}, kinds |-> {"if", "switch", "for"}, jumps |-> {"break", "continue"}, ranges |-> {}]
 \* delegation family without the recursive delegate: bounded delegation depth (C17 loop cases)
 YFsL == {YF(g, arg) : g \in 2..3, arg \in {[k |-> "lit", v |-> 1], VarA}}
 AYfL == [AYf EXCEPT !.simple = {Eff, IncA, Y(VarA)} \cup YFsL, !.posts = {None} \cup YFsL]
